@@ -8,7 +8,7 @@ ENV = dict(os.environ, GOFLAGS="-mod=mod", GOPROXY="off", GOSUMDB="off", GOTOOLC
 
 def run(cmd, cwd, timeout=600):
     try:
-        p = subprocess.run(cmd, cwd=cwd, env=ENV, shell=True, capture_output=True, text=True, timeout=timeout)
+        p = subprocess.run(cmd, cwd=cwd, env=ENV, shell=True, capture_output=True, text=True, errors="replace", timeout=timeout)
         return p.returncode, (p.stdout + p.stderr)[-3000:]
     except subprocess.TimeoutExpired:
         return 124, "timeout"
